@@ -40,6 +40,7 @@ def corpus(tier, seed):
         # different bounds per parameter, proposal order != model.names, likelihood mass at the narrow edge
         std_spec("rect2", s + 25, 50, reparameterisations={"c": "rescaletobounds"}),
         std_spec("rect2", s + 26, 50),
+        std_spec("rect3", s + 28, 50, reparameterisations={"q": "rescaletobounds", "a": "logit"}),
         # prior that is -inf inside the bounds (disc in a box)
         std_spec("disc2", s + 27, 50),
     ]
